@@ -132,6 +132,17 @@ def limit_programs():
              ("try-returns", "fn g(x) {\n  try { if x { return 1; } } catch e { return 2; }\n}\nprint(g(true));\nprint(g(false));\nprint(\"done\");\n", ["1", "nil", "done"]),
              ("method-else-returns", "#[constructor(new)]\nclass K {\n  fn m(self, x) {\n    if x { self.v = 1; } else { return 2; }\n  }\n}\nprint(K.new().m(true));\nprint(K.new().m(false));\nprint(\"done\");\n", ["nil", "2", "done"]),
              ("lambda-block-else-returns", "var h = |x| { if x { var y = 1; } else { return 2; } };\nprint(h(true));\nprint(h(false));\nprint(\"done\");\n", ["nil", "2", "done"])]
+    # a try statement whose try block and catch block each fit the 16-bit operand of PushExcHandler while their SUM does not: the
+    # interpreter derives the finally address from both (`x = 1;` on a global is 7 bytes)
+    for a, b in ((4900, 4900), (2900, 7000), (7000, 2900), (9300, 100), (100, 9300)):
+        for early in (True, False):
+            exits = "    if k == 0 { return \"ret\"; }\n    if k == 1 { throw \"t\"; }\n"
+            pad_a, pad_b = "x = 1;\n" * a, "x = 2;\n" * b
+            src = ("var x = 0;\nfn g(k) {\n  try {\n%s  } catch e {\n%s    print(\"caught \" + e);\n  } finally {\n"
+                   "    print(\"fin\");\n  }\n  return \"end\";\n}\nprint(g(0));\nprint(g(1));\nprint(g(2));\nprint(x);\nprint(\"done\");\n") % (
+                       (exits + pad_a) if early else (pad_a + exits), pad_b)
+            tails.append(("handler-sum:%d:%d:%s" % (a, b, "early" if early else "late"), src,
+                          ["fin", "ret", "caught t", "fin", "end", "fin", "end", "1", "done"]))
     for tag, src, exp in tails:
         out.append(("limit:tail:" + tag, src, {}))
         TAIL_EXPECT["limit:tail:" + tag] = exp
@@ -322,6 +333,14 @@ def rejection_signature(cls, pc, op, code, fn=None, fns=None):
         return "verifier rejects: HeightMismatch at %s" % op
     if cls == "HandlerMismatch":
         return "verifier rejects: HandlerMismatch at %s" % ("Return" if op == "Return" else "a join after leaving a try block by a jump")
+    if cls == "PendingReturnLeak" and op != "Return":
+        try:
+            if any(a <= pc <= b for a, b in finally_regions(code, fn, fns)):
+                # the shape of ledger entry F25: if this instruction raises while the finally block runs for a `return`, nothing clears the
+                # pending return address (the verifier cannot know that e.g. the global `print` is always defined)
+                return "verifier rejects: PendingReturnLeak at an instruction that can raise inside a finally block running for a return, outside every handler"
+        except Exception:
+            pass
     return "verifier rejects: %s at %s" % (cls, op)
 
 
